@@ -766,11 +766,23 @@ func MakeJPEG(dataLen, seed int, dri bool) []byte {
 		q1[i] = byte(1 + (i*5+seed+7)%200)
 	}
 	ntab := 1 + seed%2
-	dqt := jpeg.DefineQuantizationTable{Tables: []jpeg.QuantizationTable{{ID: 0, Data: q0}}}
-	if ntab == 2 {
-		dqt.Tables = append(dqt.Tables, jpeg.QuantizationTable{ID: 1, Data: q1})
+	// where the tables sit: T.81 allows any of the four ids and any grouping into DQT segments; RFC 2435 carries
+	// the tables without ids, in id order
+	layouts := [][2]uint8{{0, 1}, {0, 1}, {1, 2}, {0, 2}, {0, 3}, {2, 3}, {1, 0}, {0, 1}}
+	lay := seed / 4 % len(layouts)
+	ids := layouts[lay]
+	t0 := jpeg.QuantizationTable{ID: ids[0], Data: q0}
+	t1 := jpeg.QuantizationTable{ID: ids[1], Data: q1}
+	switch {
+	case ntab == 1:
+		buf = jpeg.DefineQuantizationTable{Tables: []jpeg.QuantizationTable{t0}}.Marshal(buf)
+	case lay == 1 || lay == 6:
+		// one DQT segment per table (lay 6: the higher id first)
+		buf = jpeg.DefineQuantizationTable{Tables: []jpeg.QuantizationTable{t0}}.Marshal(buf)
+		buf = jpeg.DefineQuantizationTable{Tables: []jpeg.QuantizationTable{t1}}.Marshal(buf)
+	default:
+		buf = jpeg.DefineQuantizationTable{Tables: []jpeg.QuantizationTable{t0, t1}}.Marshal(buf)
 	}
-	buf = dqt.Marshal(buf)
 	buf = jpeg.StartOfFrame1{Type: uint8(seed / 2 % 2), Width: 8 * (1 + seed%40), Height: 8 * (1 + seed%31), QuantizationTableCount: uint8(ntab)}.Marshal(buf)
 	if dri {
 		buf = append(buf, 0xFF, jpeg.MarkerDefineRestartInterval, 0, 4, 0, 8)
